@@ -84,6 +84,13 @@ def step (st0 : St) (j : Json) : Except String (St × Json × List Fired) := do
   if !((jbool out "released").toOption.getD true) then
     fired := fired ++ [{ name := "in_flight_signal_never_released", detail := (out.getObjVal? "pendingAfter").toOption.getD Json.null }]
   let waited := (jbool out "waited").toOption.getD true
+  -- once every submission of the round has finished, nothing is marked in flight any more
+  if waited && ((jbool out "released").toOption.getD true) then
+    match out.getObjVal? "pendingAfter" with
+    | .ok (.arr xs) =>
+      if !xs.isEmpty then
+        fired := fired ++ [{ name := "signal_marked_in_flight_after_its_submission_finished", detail := Json.arr xs }]
+    | _ => pure ()
   let mout := mkObj [("ran", jb true), ("decided", tj expect), ("deliveries", jl deliveries), ("released", jb true), ("waited", jb waited),
     ("pendingAfter", if waited then jl [] else (out.getObjVal? "pendingAfter").toOption.getD Json.null)]
   -- compare decisions as sets: the implementation iterates a map
